@@ -264,6 +264,150 @@ Section Quant.
     - intros i x Hx. unfold plusP in Hx. apply in_flat_map in Hx as (j & Hj & Hx). destruct (Hm i j Hj) as [H1 H2].
       destruct (starF_mono g P Hm _ _ _ Hx) as [H3 H4]. split; [lia|]. intros Hge. specialize (H2 Hge). subst j. apply H4. exact Hge.
   Qed.
+  (* ---- the general quantifier r{mn,mx} (mx = None: unbounded), greedy or lazy ---- *)
+  (* the positions, by the recursion of the reference RepeatMatcher (decreasing min / max, the empty check on optional
+     iterations only); m bounds the depth: at most mn iterations without progress, then every iteration progresses *)
+  Fixpoint qF (m : nat) (g : bool) (P : nat -> list nat) (mn : nat) (mx : option nat) (i : nat) : list nat :=
+    match m with
+    | O => [i]
+    | S m' =>
+      if omax_zero mx then [i] else
+      let it := flat_map (fun j => if (mn =? 0) && (j =? i) then [] else qF m' g P (pred mn) (opred mx) j) (P i) in
+      if 0 <? mn then it else if g then it ++ [i] else i :: it
+    end.
+  Definition qP (g : bool) (P : nat -> list nat) (mn : nat) (mx : option nat) (i : nat) : list nat :=
+    qF (S (mn + (length cs - i))) g P mn mx i.
+
+  Lemma obind_cond (b : bool) (p : nat) (c : caps) (h : mstate -> option (list mstate)) (H : nat -> list mstate) : forall (l : list nat),
+    (forall j, In j l -> b && (j =? p) = false -> h (j, c) = Some (H j)) ->
+    Spec.obind (fun q => if b && (fst q =? p) then Some [] else h q) (map (fun j => (j, c)) l) =
+    Some (flat_map (fun j => if b && (j =? p) then [] else H j) l).
+  Proof.
+    induction l as [|j l IH]; intros Hh; [reflexivity|]. cbn [map Spec.obind flat_map fst].
+    rewrite IH by (intros k Hk; apply Hh; right; exact Hk).
+    destruct (b && (j =? p)) eqn:E; [reflexivity|]. rewrite (Hh j (or_introl eq_refl) E). reflexivity.
+  Qed.
+
+  Lemma es_q kr r P g gs : (forall f (x : mstate), kr <= f -> ES (S f) r Fwd x = Some (lift P x)) -> monoP P ->
+    forall m f p (c : caps) mn mx, mn + (length cs - p) < m -> kr + m <= f ->
+    ES (S f) (RQuant r mn mx g gs gs) Fwd (p, c) = Some (lift (qF m g P mn mx) (p, c)).
+  Proof.
+    intros Hr Hm. induction m as [|m IH]; intros f p c mn mx Hlen Hf; [lia|]. destruct f as [|f']; [lia|].
+    rewrite es_quant_unfold. cbn [fst snd qF]. destruct (omax_zero mx); [reflexivity|]. rewrite Nat.sub_diag. cbn [reset_range].
+    change (list (option (nat * nat))) with caps. rewrite (Hr f' (p, c)) by lia. unfold lift at 1. cbn [fst snd].
+    rewrite (obind_cond (mn =? 0) p c (ES (S f') (RQuant r (pred mn) (opred mx) g gs gs) Fwd) (fun j => lift (qF m g P (pred mn) (opred mx)) (j, c)) (P p)).
+    - unfold lift. cbn [fst snd]. f_equal.
+      assert (E : flat_map (fun j => if (mn =? 0) && (j =? p) then [] else map (fun j0 => (j0, c)) (qF m g P (pred mn) (opred mx) j)) (P p) =
+                  map (fun j => (j, c)) (flat_map (fun j => if (mn =? 0) && (j =? p) then [] else qF m g P (pred mn) (opred mx) j) (P p))).
+      { rewrite map_flat_map. apply flat_map_ext. intros j. destruct ((mn =? 0) && (j =? p)); reflexivity. }
+      destruct (0 <? mn); [exact E|]. destruct g; [rewrite map_app|]; cbn [map]; f_equal; exact E.
+    - intros j Hj Hc. destruct (Hm p j Hj) as [Hle Hend]. apply IH; [|lia].
+      destruct mn as [|mn']; [|cbn [pred]; lia]. cbn [Nat.eqb andb] in Hc. apply Nat.eqb_neq in Hc.
+      assert (Hlt : p < length cs) by (destruct (Nat.lt_ge_cases p (length cs)) as [H|H]; [exact H|exfalso; apply Hc; apply Hend; exact H]).
+      cbn [pred]. lia.
+  Qed.
+
+  Definition omx (MX : option nat) (k : nat) : option nat := match MX with None => None | Some M => Some (M - k) end.
+
+  Lemma ir_q (bodyf : mst -> option (list mst)) (MN : nat) (MX : option nat) P g egs : insideP cs P -> monoP P ->
+    (forall i (G : list groupdata), i <= length cs -> bodyf (off cs i, G) = Some (map (phi cs) (lift P (i, G)))) ->
+    (forall M, MX = Some M -> MN <= M) ->
+    forall m lf k e i (G : list groupdata), i <= length cs -> (MN - k) + (length cs - i) < m -> m < lf -> (N.of_nat k + N.of_nat m < USIZE_MAX)%N ->
+    (forall M, MX = Some M -> k <= M) -> (k <= MN \/ e <> off cs i) ->
+    loop_results bodyf (N.of_nat MN) (option_map N.of_nat MX) g egs egs lf (N.of_nat k) e (off cs i, G) =
+    Some (map (phi cs) (lift (qF m g P (MN - k) (omx MX k)) (i, G))).
+  Proof.
+    intros Hi Hm HB Hval. induction m as [|m IH]; intros lf k e i G Hl Hlen Hlf Hk HkM He; [lia|]. destruct lf as [|lf']; [lia|].
+    rewrite loop_step. cbv zeta. cbn [fst snd].
+    assert (Echk : ((0 <? N.of_nat k)%N && (N.of_nat MN <? N.of_nat k)%N && (e =? off cs i))%bool = false).
+    { destruct He as [He|He].
+      - assert (E : (N.of_nat MN <? N.of_nat k)%N = false) by (apply N.ltb_ge; lia). rewrite E, Bool.andb_false_r. reflexivity.
+      - apply Nat.eqb_neq in He. rewrite He, Bool.andb_false_r. reflexivity. }
+    rewrite Echk. clear Echk.
+    assert (Eskip : (N.of_nat MN <=? N.of_nat k)%N = (MN <=? k)).
+    { destruct (Nat.leb_spec MN k); [apply N.leb_le|apply N.leb_gt]; lia. }
+    rewrite Eskip. clear Eskip.
+    assert (Eent : (N.of_nat k <? max_val (option_map N.of_nat MX))%N = negb (omax_zero (omx MX k))).
+    { destruct MX as [M|]; cbn [option_map max_val omx omax_zero].
+      - specialize (HkM M eq_refl). destruct (M - k) eqn:EM; cbn [negb]; [apply N.ltb_ge|apply N.ltb_lt]; lia.
+      - apply N.ltb_lt. lia. }
+    rewrite Eent. clear Eent. cbn [qF].
+    destruct (omax_zero (omx MX k)) eqn:Ez; cbn [negb andb].
+    - (* the maximum is reached: k = M >= MN, the loop is left *)
+      assert (Hs : (MN <=? k) = true).
+      { apply Nat.leb_le. destruct MX as [M|]; [|discriminate Ez]. cbn [omx omax_zero] in Ez. specialize (HkM M eq_refl). specialize (Hval M eq_refl).
+        destruct (M - k) eqn:EM; [lia|discriminate Ez]. }
+      rewrite Hs. cbn [negb]. reflexivity.
+    - assert (Hlt : forall M, MX = Some M -> k < M).
+      { intros M EM. subst MX. cbn [omx omax_zero] in Ez. specialize (HkM M eq_refl). destruct (M - k) eqn:E; [discriminate Ez|lia]. }
+      assert (Eit : match reset_groups G egs (egs - egs) with
+                    | None => None
+                    | Some g1 => match bodyf (off cs i, g1) with
+                                 | None => None
+                                 | Some zs => obindm (loop_results bodyf (N.of_nat MN) (option_map N.of_nat MX) g egs egs lf' (N.of_nat k + 1)%N (off cs i)) zs
+                                 end
+                    end = Some (flat_map (fun j => if (MN - k =? 0) && (j =? i) then [] else map (phi cs) (lift (qF m g P (pred (MN - k)) (opred (omx MX k))) (j, G))) (P i))).
+      { rewrite Nat.sub_diag. cbn [reset_groups]. rewrite (HB i G Hl). unfold lift at 1. cbn [fst snd]. rewrite map_map. apply (obindm_progress i G).
+        intros j Hj. pose proof (Hi i Hl) as Hin. rewrite Forall_forall in Hin. specialize (Hin j Hj). destruct (Hm i j Hj) as [Hle Hend].
+        replace (N.of_nat k + 1)%N with (N.of_nat (S k)) by lia.
+        destruct ((MN - k =? 0) && (j =? i)) eqn:Ec.
+        * apply andb_prop in Ec as [E1 E2]. apply Nat.eqb_eq in E1, E2. subst j. destruct lf' as [|lf'']; [lia|]. rewrite loop_step. cbn [fst].
+          assert (Ea : (0 <? N.of_nat (S k))%N = true) by (apply N.ltb_lt; lia).
+          assert (Eb : (N.of_nat MN <? N.of_nat (S k))%N = true) by (apply N.ltb_lt; lia). rewrite Ea, Eb, Nat.eqb_refl. reflexivity.
+        * assert (Hc : MN - k <> 0 \/ j <> i).
+          { apply Bool.andb_false_iff in Ec as [E1|E2]; [left; apply Nat.eqb_neq; exact E1|right; apply Nat.eqb_neq; exact E2]. }
+          assert (Hp : pred (MN - k) = MN - S k) by lia.
+          assert (Ho : opred (omx MX k) = omx MX (S k)) by (destruct MX as [M|]; cbn [omx opred]; [f_equal; lia|reflexivity]).
+          rewrite Hp, Ho. apply IH; [exact Hin| | lia | lia | | ].
+          -- destruct Hc as [Hc|Hc]; [lia|]. assert (i < j) by lia. lia.
+          -- intros M EM. specialize (Hlt M EM). lia.
+          -- destruct Hc as [Hc|Hc]; [left; lia|]. right. intros Eo. apply Hc. apply off_inj; [exact Hin|exact Hl|symmetry; exact Eo]. }
+      rewrite Eit. clear Eit. unfold lift. cbn [fst snd].
+      assert (E : flat_map (fun j => if (MN - k =? 0) && (j =? i) then [] else map (phi cs) (map (fun j0 => (j0, G)) (qF m g P (pred (MN - k)) (opred (omx MX k)) j))) (P i) =
+                  map (phi cs) (map (fun j => (j, G)) (flat_map (fun j => if (MN - k =? 0) && (j =? i) then [] else qF m g P (pred (MN - k)) (opred (omx MX k)) j) (P i)))).
+      { rewrite !map_flat_map. apply flat_map_ext. intros j. destruct ((MN - k =? 0) && (j =? i)); reflexivity. }
+      assert (Eb : (0 <? MN - k) = negb (MN <=? k)).
+      { destruct (Nat.leb_spec MN k); cbn [negb]; [apply Nat.ltb_ge|apply Nat.ltb_lt]; lia. }
+      rewrite Eb. destruct (MN <=? k); cbn [negb].
+      * rewrite E. f_equal. destruct g; [rewrite !map_app|]; reflexivity.
+      * rewrite E. reflexivity.
+  Qed.
+
+  Lemma qF_inside g P : insideP cs P -> forall m mn mx i, i <= length cs -> Forall (fun j => j <= length cs) (qF m g P mn mx i).
+  Proof.
+    intros Hi. induction m as [|m IH]; intros mn mx i Hl; [constructor; [exact Hl|constructor]|]. cbn [qF].
+    destruct (omax_zero mx); [constructor; [exact Hl|constructor]|].
+    assert (Hf : Forall (fun j => j <= length cs) (flat_map (fun j => if (mn =? 0) && (j =? i) then [] else qF m g P (pred mn) (opred mx) j) (P i))).
+    { rewrite Forall_forall. intros x Hx. apply in_flat_map in Hx as (j & Hj & Hx). destruct ((mn =? 0) && (j =? i)); [destruct Hx|].
+      pose proof (Hi i Hl) as Hin. rewrite Forall_forall in Hin. specialize (IH (pred mn) (opred mx) j (Hin j Hj)). rewrite Forall_forall in IH. apply IH. exact Hx. }
+    destruct (0 <? mn); [exact Hf|]. destruct g; [apply Forall_app; split; [exact Hf|constructor; [exact Hl|constructor]]|constructor; assumption].
+  Qed.
+  Lemma qF_mono g P : monoP P -> forall m mn mx i j, In j (qF m g P mn mx i) -> i <= j /\ (length cs <= i -> j = i).
+  Proof.
+    intros Hm. induction m as [|m IH]; intros mn mx i j Hj; [destruct Hj as [<-|[]]; split; [lia|reflexivity]|]. cbn [qF] in Hj.
+    destruct (omax_zero mx); [destruct Hj as [<-|[]]; split; [lia|reflexivity]|].
+    assert (Hit : In j (flat_map (fun j0 => if (mn =? 0) && (j0 =? i) then [] else qF m g P (pred mn) (opred mx) j0) (P i)) -> i <= j /\ (length cs <= i -> j = i)).
+    { intros Hx. apply in_flat_map in Hx as (j0 & Hj0 & Hx). destruct ((mn =? 0) && (j0 =? i)) eqn:E0; [destruct Hx|].
+      destruct (Hm i j0 Hj0) as [Hle Hend]. destruct (IH _ _ j0 j Hx) as [Hle2 Hend2]. split; [lia|]. intros Hge. specialize (Hend Hge). subst j0. apply Hend2. exact Hge. }
+    destruct (0 <? mn); [apply Hit; exact Hj|]. destruct g.
+    - apply in_app_or in Hj as [Hj|[<-|[]]]; [apply Hit; exact Hj|split; [lia|reflexivity]].
+    - destruct Hj as [<-|Hj]; [split; [lia|reflexivity]|apply Hit; exact Hj].
+  Qed.
+
+  Theorem quant_gden kr kn r n P g gs egs mn mx : gden r n P kr kn -> monoP P -> (forall M, mx = Some M -> mn <= M) ->
+    (N.of_nat (mn + S (S (length cs))) < USIZE_MAX)%N ->
+    gden (RQuant r mn mx g gs gs) (NLoop n (N.of_nat mn) (option_map N.of_nat mx) g egs egs) (qP g P mn mx)
+         (kr + mn + S (length cs)) (kn + mn + S (S (S (length cs)))) /\ monoP (qP g P mn mx).
+  Proof.
+    intros [[Hr Hn] Hi] Hm Hval Hsz. split; [split; [split|]|].
+    - intros f [p c] Hf. unfold lift, qP. cbn [fst snd]. rewrite (es_q kr r P g gs Hr Hm (S (mn + (length cs - p))) f p c mn mx) by lia. reflexivity.
+    - intros f i G Hf Hl. destruct f as [|f0]; [lia|]. rewrite ir_loop_unfold. cbn [fst].
+      pose proof (ir_q (IR (S f0) n true) mn mx P g egs Hi Hm (fun i0 G0 Hl0 => Hn f0 i0 G0 ltac:(lia) Hl0) Hval (S (mn + (length cs - i))) (S f0) 0 (off cs i) i G Hl) as H.
+      rewrite Nat.sub_0_r in H. change (N.of_nat 0) with 0%N in H. replace (omx mx 0) with mx in H by (destruct mx as [M|]; cbn [omx]; [rewrite Nat.sub_0_r|]; reflexivity).
+      rewrite H; [reflexivity|lia|lia|lia|intros M _; lia|left; lia].
+    - intros i Hl. apply qF_inside; assumption.
+    - intros i j Hj. apply (qF_mono g P Hm _ _ _ _ _ Hj).
+  Qed.
 End Quant.
 
 Section Mono.
